@@ -3,6 +3,7 @@ package mon
 import (
 	"regexp"
 	"strings"
+	"time"
 
 	"verif/eng"
 )
@@ -31,7 +32,34 @@ func errKey(detail string) string {
 
 // RoundTripStep is the custom step "roundtrip".
 func (m *C09) RoundTripStep(w *eng.World) {
-	r := eng.RoundTrip(w.C)
+	// genesis time of the importing chain: mostly the export time; otherwise later (beyond pending
+	// expirations), exactly on an expiration, or earlier
+	at := w.C.Time
+	mode := (w.StepIdx / 3) % 8
+	if w.T != nil {
+		mode = w.Intn("c09.importat", 8)
+	}
+	switch mode {
+	case 1:
+		at = at.Add(time.Nanosecond)
+	case 2:
+		at = at.AddDate(1, 0, 0)
+	case 3:
+		at = at.AddDate(60, 0, 0)
+	case 4:
+		for _, o := range w.S.SellOrders {
+			if o.Expiration != nil {
+				at = o.Expiration.AsTime()
+				break
+			}
+		}
+	case 5:
+		at = at.Add(-24 * time.Hour)
+	}
+	if !at.Equal(w.C.Time) {
+		w.Flags["import-at-other-time"] = true
+	}
+	r := eng.RoundTrip(w.C, at)
 	eng.G.Count("C09/roundtrips", 1)
 	if r.Tables >= 10 {
 		m.rich = true
